@@ -805,7 +805,8 @@ PROPS["C13"] = _dbg(
     "`registers`, `break list`, `exit`: the full machine, breakpoint list and error lines are compared.")
 PROPS["C16"] = _dbg(
     ["Lace.C16.no_spin", "Lace.C16.iter_mono", "Lace.C16.work_bound", "Lace.DbgProofs.nextAction_no_cmd",
-     "Lace.C16.reads_bounded", "Lace.C16.session_work_bound", "Lace.C16.session_terminates"],
+     "Lace.C16.reads_bounded", "Lace.C16.session_work_bound", "Lace.C16.session_terminates",
+     "Lace.C16.runLoop_fuel_mono", "Lace.C16.runLoop_fuel_agree", "Lace.C16.session_outcome_unique"],
     "programs that jump to xFFFF, below the origin, to xFE00 and above, or park on HALT (and ordinary ones) × scripts of "
     "resuming commands (continue, step, step out, step into k), break add and goto issued wherever the program is, "
     "followed by end of input or quit, under a large iteration budget; verdict progress=ok: iterations counted by the "
